@@ -14,7 +14,7 @@ Fixpoint topqb (q : qobj) : bool :=
 
 Lemma flatten_topq k : forall q, topqb q = true -> forall x, In x (flatten k q) -> topqb x = true.
 Proof.
-  induction q as [| | | |n inner inv IHq| | |k' ms HF] using qobj_ind'; intros T x Hx;
+  induction q as [| | | |n inner inv IHq| | | | |k' ms HF] using qobj_ind'; intros T x Hx;
     try (rewrite flatten_other in Hx by (intros; congruence); destruct Hx as [E | []]; subst; exact T).
   destruct (jk_eqb k k') eqn:E.
   - apply jk_eqb_eq in E. subst k'. rewrite flatten_QJ_same in Hx.
@@ -35,7 +35,7 @@ Proof.
   set (flat := flat_map (flatten k) conds) in *.
   set (named := filter (mergeable vr) flat) in *.
   set (others := filter (fun q => negb (mergeable vr q)) flat) in *.
-  destruct (map_result (merge_one vr fuel k named) (nodup_str (map qname named))) as [merged|e] eqn:EM;
+  destruct (map_result (merge_one vr fuel k named) (nodup_key (map (mkey vr k) named))) as [merged|e] eqn:EM;
     simpl in H; [|congruence].
   assert (A : forall x, In x (dedupe (others ++ merged)) -> topqb x = true).
   { intros x Hx. apply (proj1 (dedupe_in _ _)) in Hx. apply (proj1 (in_app_iff _ _ _)) in Hx. destruct Hx as [Hx | Hx].
@@ -56,13 +56,28 @@ Qed.
 Lemma named_path_topq path leaf : path <> [] -> topqb (named_path path leaf) = true.
 Proof. destruct path; [congruence | reflexivity]. Qed.
 
+Lemma invert_topq vr : forall x q, invert vr x = Ok q -> topqb q = true.
+Proof.
+  induction x as [| | | |n inner inv IHq|negs a|negs k v|negs a|inv k v|k ms HF] using qobj_ind';
+    intros q H; try (simpl in H; congruence); try (simpl in H; inversion H; reflexivity).
+  - simpl in H. destruct (fix_not_null vr); inversion H; reflexivity.
+  - rewrite invert_QJ in H. destruct (fix_not_junction vr); [|congruence].
+    destruct (map_result (invert vr) ms) as [ms'|e] eqn:EM; simpl in H; [|congruence].
+    unfold junction in H. apply (mk_junction_topq _ _ _ _ _) with (2 := H).
+    intros y Hy. apply map_result_ok in EM. rewrite Forall_forall in HF.
+    clear H. induction EM as [|x0 y0 xs ys Hxy _ IH]; simpl in Hy; [tauto|].
+    destruct Hy as [E | Hy].
+    + subst y0. apply (HF x0 (or_introl eq_refl) y Hxy).
+    + apply IH; [intros z Hz; apply HF; right; exact Hz | exact Hy].
+Qed.
+
 Lemma compile_topq vr : forall p q, compile vr p = Ok q -> topqb q = true.
 Proof.
   induction p as [path c k|a|k v|a IHa b IHb|a IHa b IHb|a IHa]; intros q H; simpl in H.
   - destruct path as [|n r]; [congruence|].
     destruct (leaf_of c k) as [leaf|e]; simpl in H; [|congruence]. inversion H. reflexivity.
   - inversion H. reflexivity.
-  - inversion H. reflexivity.
+  - destruct (fix_not_info vr); inversion H; reflexivity.
   - destruct (compile vr a) as [x|e]; simpl in H; [|congruence].
     destruct (compile vr b) as [y|e]; simpl in H; [|congruence].
     unfold junction in H.
@@ -76,7 +91,7 @@ Proof.
     { intros z [E | [E | []]]; subst z; [apply IHa | apply IHb]; reflexivity. }
     apply (mk_junction_topq _ _ _ _ _ T H).
   - destruct (compile vr a) as [x|e]; simpl in H; [|congruence].
-    destruct x; simpl in H; inversion H; reflexivity.
+    apply (invert_topq vr x q H).
 Qed.
 
 Lemma mk_junction_err vr : forall fuel k conds e,
@@ -86,26 +101,26 @@ Proof.
   rewrite mk_junction_S in H. cbv zeta in H.
   set (flat := flat_map (flatten k) conds) in *.
   set (named := filter (mergeable vr) flat) in *.
-  destruct (map_result (merge_one vr fuel k named) (nodup_str (map qname named))) as [merged|e'] eqn:EM; simpl in H.
+  destruct (map_result (merge_one vr fuel k named) (nodup_key (map (mkey vr k) named))) as [merged|e'] eqn:EM; simpl in H.
   - unfold finish in H. destruct (dedupe _) as [|x [|y r]]; congruence.
   - inversion H. subst e'. apply map_result_err in EM. destruct EM as [n [_ Hg]].
     unfold merge_one in Hg.
-    destruct (mk_junction vr fuel k (map qinner (grp n named))) as [sub|e'] eqn:ES.
-    + unfold bind in Hg. cbv zeta in Hg. destruct (tables_ok (QNamed n sub false)); inversion Hg. auto.
+    destruct (mk_junction vr fuel k (map qinner (grp vr k n named))) as [sub|e'] eqn:ES.
+    + unfold bind in Hg. cbv zeta in Hg. destruct (tables_ok (QNamed (fst n) sub false)); inversion Hg. auto.
     + simpl in Hg. inversion Hg. subst e'. apply (IH _ _ _ ES).
 Qed.
 
 (* a well-formed predicate fails to compile only by negating a junction (TypeError) or by a merge
    that needs three tables (AssertionError) *)
-Theorem compile_err vr : forall p e,
+Theorem compile_err vr : fix_not_junction vr = false -> forall p e,
   wf_pred p = true -> compile vr p = Err e ->
   (e = ETypeError /\ has_not_junction vr p = true) \/ e = EAssertion.
 Proof.
-  induction p as [path c k|a|k v|a IHa b IHb|a IHa b IHb|a IHa]; intros e W H; simpl in H.
+  intro NJ. induction p as [path c k|a|k v|a IHa b IHb|a IHa b IHb|a IHa]; intros e W H; simpl in H.
   - exfalso. simpl in W. destruct path as [|n r]; [simpl in W; congruence|]. simpl in W.
     destruct k; simpl in H; try congruence; destruct (cmp_eqb c CEq); simpl in W, H; congruence.
   - congruence.
-  - congruence.
+  - destruct (fix_not_info vr); congruence.
   - simpl in W. apply andb_true_iff in W. destruct W as [Wa Wb].
     destruct (compile vr a) as [x|e1] eqn:Ea; simpl in H.
     + destruct (compile vr b) as [y|e2] eqn:Eb; simpl in H.
@@ -126,10 +141,23 @@ Proof.
       split; [exact E1 | simpl; rewrite E2; reflexivity].
   - simpl in W. destruct (compile vr a) as [x|e1] eqn:Ea; simpl in H.
     + left. pose proof (compile_topq vr a x Ea) as T.
-      destruct x; simpl in H, T; try congruence.
-      inversion H. split; [reflexivity|]. simpl. rewrite Ea. apply orb_true_r.
+      destruct x; simpl in T; try congruence; try (simpl in H; congruence).
+      * simpl in H. destruct (fix_not_null vr); congruence.
+      * rewrite invert_QJ, NJ in H. inversion H. split; [reflexivity|]. simpl. rewrite Ea. apply orb_true_r.
     + inversion H. subst e1. destruct (IHa e W eq_refl) as [[E1 E2] | E]; [left | right; exact E].
       split; [exact E1 | simpl; rewrite E2; reflexivity].
+Qed.
+
+Lemma invert_err_kind vr : forall x e, invert vr x = Err e -> e = EAssertion \/ e = ETypeError \/ e = EFuel.
+Proof.
+  induction x as [| | | |n inner inv IHq|negs a|negs k v|negs a|inv k v|k ms HF] using qobj_ind';
+    intros e H; try (simpl in H; inversion H; auto; fail); try (simpl in H; congruence).
+  - simpl in H. destruct (fix_not_null vr); congruence.
+  - rewrite invert_QJ in H. destruct (fix_not_junction vr); [|inversion H; auto].
+    destruct (map_result (invert vr) ms) as [ms'|e'] eqn:EM; simpl in H.
+    + unfold junction in H. destruct (mk_junction_err _ _ _ _ _ H); auto.
+    + inversion H. subst e'. apply map_result_err in EM. destruct EM as [x [Hx Ex]].
+      rewrite Forall_forall in HF. exact (HF x Hx e Ex).
 Qed.
 
 (* compile only ever fails with the exceptions of the construct stage *)
@@ -139,7 +167,7 @@ Proof.
   - destruct path as [|n r]; [inversion H; auto|].
     destruct k; simpl in H; try congruence; destruct (cmp_eqb c CEq); simpl in H; inversion H; auto.
   - congruence.
-  - congruence.
+  - destruct (fix_not_info vr); congruence.
   - destruct (compile vr a) as [x|e1]; simpl in H; [|inversion H; subst; apply IHa; reflexivity].
     destruct (compile vr b) as [y|e2]; simpl in H; [|inversion H; subst; apply IHb; reflexivity].
     unfold junction in H. destruct (mk_junction_err _ _ _ _ _ H); auto.
@@ -147,7 +175,7 @@ Proof.
     destruct (compile vr b) as [y|e2]; simpl in H; [|inversion H; subst; apply IHb; reflexivity].
     unfold junction in H. destruct (mk_junction_err _ _ _ _ _ H); auto.
   - destruct (compile vr a) as [x|e1]; simpl in H; [|inversion H; subst; apply IHa; reflexivity].
-    destruct x; simpl in H; inversion H; auto.
+    apply (invert_err_kind vr x e H).
 Qed.
 
 (* with escaped constants (60fb795) the execute stage cannot fail *)
